@@ -7,7 +7,8 @@ from ..function import Function
 from ..number import Context
 from ..primitive import Primitive
 from .call_graph import CallGraph
-from .define_use import AssignDef, DefineUse, DefineUseAnalysis
+from .define_use import AssignDef, DefineUse, DefineUseAnalysis, Definition
+from .reaching_defs import same_object_defs
 
 
 class _ImpureError(Exception):
@@ -65,10 +66,20 @@ class _Purity(DefaultVisitor):
 
     def _visit_indexed_assign(self, stmt: IndexedAssign, ctx: None):
         super()._visit_indexed_assign(stmt, ctx)
-        d = self.def_use.find_def_from_use(stmt)
-        if isinstance(d, AssignDef) and isinstance(d.site, Argument | FuncDef):
-            # modifying an argument or a free variable
-            raise _ImpureError(f'Impure: Indexed assignment {stmt}')
+        # The reaching definition of the mutated name is a phi inside a loop
+        # or after a branch, and an `IndexedAssign` definition after an earlier
+        # store: all of them denote the list that was already there.
+        seen: set[Definition] = set()
+        worklist = [self.def_use.find_def_from_use(stmt)]
+        while worklist:
+            d = worklist.pop()
+            if d in seen:
+                continue
+            seen.add(d)
+            if isinstance(d, AssignDef) and isinstance(d.site, Argument | FuncDef):
+                # modifying an argument or a free variable
+                raise _ImpureError(f'Impure: Indexed assignment {stmt}')
+            worklist.extend(self.def_use.defs[i] for i in same_object_defs(d))
 
 
 class Purity:
